@@ -604,6 +604,8 @@ def generic_sweeps(ctx: Ctx, stutter: bool = True, skip_stutter_modules: tuple =
                         for x_ in own_nodes(f.node):
                             if isinstance(x_, ast.Compare) and any(isinstance(o_, (ast.Is, ast.IsNot)) for o_ in x_.ops) and isinstance(x_.left, ast.Name) and x_.left.id == nm_:
                                 tested = True
+                            if isinstance(x_, ast.BoolOp) and any(isinstance(y_, ast.Name) and y_.id == nm_ for y_ in x_.values[:-1]):
+                                tested = True  # `x or default` / `x and x[0]`: the operand's truth decides
                             if isinstance(x_, (ast.If, ast.While, ast.IfExp)) and any(isinstance(y_, ast.Name) and y_.id == nm_ for y_ in ([x_.test] if isinstance(x_.test, ast.Name) else ([x_.test.operand] if isinstance(x_.test, ast.UnaryOp) and isinstance(x_.test.op, ast.Not) else (x_.test.values if isinstance(x_.test, ast.BoolOp) else [])))):
                                 tested = True
                 if tested:
